@@ -1,9 +1,13 @@
 (* C12 correspondence: an in-process frps driven by scripted peers (and, in the schedule cases, by
    verifhook gates) against Model.CtlMgr.  A case is a list of items; the model replays the actions
    and its projected state must equal what the harness observed at every IObs. *)
-From FRP Require Export Corr.Common Model.CtlMgr.
+From FRP Require Export Corr.Common Model.CtlMgr Model.ClientLogin.
 Export CM.
 Open Scope N_scope.
+
+(* proxy types the driver registers *)
+Definition tcpT : ptype := mkPT 1%Z false.
+Definition stcpT : ptype := mkPT 0%Z true.
 
 Inductive item :=
 | IAct (a : action)        (* the implementation performed this action: it must be enabled in the model *)
@@ -200,3 +204,21 @@ Definition has_err (e : N) (i : item) : bool :=
   | IObs _ _ _ oo => existsb (fun o => match o with ONewProxyResp _ _ _ e' _ => e' =? e | _ => false end) oo
   | _ => false
   end.
+
+(* ---- the client half: a real frpc behind a relay that can cut the client side of the control
+   connection and refuse a login.  A case = the attempts in order: what happened to it (outcome) and
+   the run id the Login message carried; run ids are numbered, None = "" ---- *)
+Inductive cobs :=
+| CAttempt (o : CL.outcome) (presented : option N)
+| CLost.
+
+Definition cobs_event (c : cobs) : CL.cevent :=
+  match c with CAttempt o _ => CL.ELogin o | CLost => CL.EConnLost end.
+Definition cobs_presented (l : list cobs) : list (option N) :=
+  flat_map (fun c => match c with CAttempt _ p => [p] | CLost => [] end) l.
+
+(* 0 agrees | 21 an attempt carried another run id than the model's client *)
+Definition check_client (l : list cobs) : Z :=
+  if list_eqb optN_eqb (snd (CL.c_run CL.c_init (map cobs_event l))) (cobs_presented l) then 0%Z else 21%Z.
+
+Definition is_refused (c : cobs) : bool := match c with CAttempt (CL.ORefused _) _ => true | _ => false end.
